@@ -114,7 +114,9 @@ def follow(P, R, f, before, reads):
             gs = f.guards(s.bid)
             brace = any(is_var(g[0], chv) and g[1] == '==' and const_of(g[2]) == ord('}') for g in gs)
             nested = any(is_var(g[0], f.params[1]) and g[1] == '!=' and any(is_field(x, 'root', 'conf_parse') for x in walk(g[2])) for g in gs)
-            ret = f.path_avoiding(s, lambda t: t.ev['k'] == 'ret') is None and not any(rules.is_call(t, 'longjmp') for b in f.reach([s.bid]) for t in f.block_sites(b) if b == s.bid)
+            # nothing else happens behind the un-read: an explicit return, or the end of the function
+            later = [t for b in f.reach([e.dst for e in f.out[s.bid]]) for t in f.block_sites(b) if t.ev['k'] != 'ret'] + [t for t in f.block_sites(s.bid)[s.idx + 1:] if t.ev['k'] != 'ret']
+            ret = (f.path_avoiding(s, lambda t: t.ev['k'] == 'ret') is None or not later) and not any(rules.is_call(t, 'longjmp') for b in f.reach([s.bid]) for t in f.block_sites(b) if b == s.bid)
             if brace and nested:
                 okb = True
                 R.ob('C16.TAB.1', ret, s, 'inside an object a closing brace ends the last entry and is left for the enclosing object', key='follow:brace')
